@@ -413,16 +413,23 @@ func (p *wat2cWorker) buildFunc_ins(w io.Writer, fn *ast.Func, stk *valueTypeSta
 					assert(defaultScopeResults[i] == destScopeResults[i])
 				}
 
+				// 每个分支的复制代码必须位于对应的case标签之后, 否则不会被执行
+				caseLabel := fmt.Sprintf("case %d:", k)
+				if k == len(i.XList)-1 {
+					assert(labelName == defaultLabelName)
+					caseLabel = "default:"
+				}
+
 				// 带返回值的情况
 				if len(destScopeResults) > 0 {
-					// 必须确保当前block的stk上有足够的返回值
-					assert(currentScopeStackBase+len(destScopeResults) >= stk.Len())
-
-					// 第一个返回值返回值的偏移地址
-					firstResultOffset := stk.Len() - len(destScopeResults)
+					// 第一个返回值返回值的偏移地址(返回值已经出栈, 取出栈时记录的位置)
+					firstResultOffset := retIdxList[0]
 
 					// 如果返回值位置和目标block的base不一致则需要逐个复制
 					if firstResultOffset > destScopeStackBase {
+						fmt.Fprintf(w, "%s%s\n", indent, caseLabel)
+						caseLabel = ""
+
 						// 返回值是逆序出栈
 						fmt.Fprintf(w, "%s// copy br %s result\n", indent, labelName)
 						for i := 0; i < len(destScopeResults); i++ {
@@ -444,14 +451,13 @@ func (p *wat2cWorker) buildFunc_ins(w io.Writer, fn *ast.Func, stk *valueTypeSta
 					}
 				}
 
-				if k == len(i.XList)-1 {
-					assert(labelName == defaultLabelName)
-					fmt.Fprintf(w, "%sdefault: goto L_%s_next;\n",
-						indent, toCName(defaultLabelName),
+				if caseLabel != "" {
+					fmt.Fprintf(w, "%s%s goto L_%s_next;\n",
+						indent, caseLabel, toCName(labelName),
 					)
 				} else {
-					fmt.Fprintf(w, "%scase %d: goto L_%s_next;\n",
-						indent, k, toCName(labelName),
+					fmt.Fprintf(w, "%sgoto L_%s_next;\n",
+						indent, toCName(labelName),
 					)
 				}
 			}
